@@ -128,6 +128,8 @@ func (x expr) enc() string {
 		return fmt.Sprintf("M:%d:%s:%s", x.id, x.y, x.v.enc())
 	case 'K':
 		return fmt.Sprintf("K:%d:%s", x.id, x.v.enc())
+	case 'B':
+		return fmt.Sprintf("B:%d:%s:%s", x.id, x.y, x.v.enc())
 	case 'T':
 		return fmt.Sprintf("T:%s:%d:%d:%s", x.y, x.l, x.r, x.v.enc())
 	case 'G':
@@ -164,6 +166,10 @@ func (x expr) src(uniq *int) string {
 		return x.y + "()"
 	case 'K':
 		return "mk(" + x.v.src() + ")"
+	case 'B': // a bundle of closures over the parameter: reader, then the writers in the order of innerIndex
+		n := x.y
+		return "func(" + n + "){[()=>" + n + ",(x)=>{" + n + "=x},(x)=>{" + n + ":=x},func(" + n + "){" + n + "},(a,b)=>{for " + n + "=a:b{" + n + "}}," +
+			"(l)=>{for " + n + "=l{" + n + "}},(k,x)=>{" + n + "[k]=x},(k)=>{del(" + n + "[k])},()=>{" + n + "++},()=>{" + n + "--}]}(" + x.v.src() + ")"
 	default:
 		*uniq++
 		return fmt.Sprintf("func(pp){%d;pp[%s]=%s;pp}(%s)", *uniq, x.k.src(), x.v.src(), x.y)
@@ -173,7 +179,7 @@ func lit(v val) expr { return expr{v: v} }
 
 // ---- attempts
 type attempt struct {
-	kind string // AS IN IX DE DL FI FL CL CA RD
+	kind string // AS IN IX DE DL FI FL CL CA RD; W: a closure of the bundle <name> is called, y = what it does (RD AS PM FI FL IX DE IN)
 	name string
 	y    string // CA: the variable whose value is passed
 	ex   expr
@@ -212,6 +218,28 @@ func (a attempt) enc() string {
 		return fmt.Sprintf("CL,%s,%s", a.name, a.v.enc())
 	case "CA":
 		return fmt.Sprintf("CA,%s,%s,%s,%s", a.name, a.y, a.k.enc(), a.v.enc())
+	case "W":
+		switch a.y {
+		case "AS":
+			return fmt.Sprintf("%s,AS,%s,%s", a.name, a.v.enc(), f)
+		case "PM":
+			return fmt.Sprintf("%s,PM,%s", a.name, a.v.enc())
+		case "FI":
+			return fmt.Sprintf("%s,FI,%d,%d", a.name, a.a, a.b)
+		case "FL":
+			parts := []string{strconv.Itoa(len(a.l))}
+			for _, e := range a.l {
+				parts = append(parts, e.enc())
+			}
+			return fmt.Sprintf("%s,FL,%s", a.name, strings.Join(parts, "."))
+		case "IX":
+			return fmt.Sprintf("%s,IX,%s,%s", a.name, a.k.enc(), a.v.enc())
+		case "DE":
+			return fmt.Sprintf("%s,DE,%s", a.name, a.k.enc())
+		case "IN":
+			return fmt.Sprintf("%s,IN,%d", a.name, a.a)
+		}
+		return a.name + ",RD"
 	default:
 		return "RD," + a.name
 	}
@@ -254,6 +282,35 @@ func (a attempt) src(uniq *int) string {
 	case "CA":
 		*uniq++
 		return fmt.Sprintf("func(%s){%d;%s[%s]=%s;%s}(%s)", a.name, *uniq, a.y, a.k.src(), a.v.src(), a.name, a.y)
+	case "W":
+		g := a.name
+		switch a.y {
+		case "AS":
+			if a.flag {
+				return g + "[2](" + a.v.src() + ")"
+			}
+			return g + "[1](" + a.v.src() + ")"
+		case "PM":
+			return g + "[3](" + a.v.src() + ")"
+		case "FI":
+			return fmt.Sprintf("%s[4](%d,%d)", g, a.a, a.b)
+		case "FL":
+			parts := make([]string, len(a.l))
+			for i, e := range a.l {
+				parts[i] = e.src()
+			}
+			return g + "[5]([" + strings.Join(parts, ",") + "])"
+		case "IX":
+			return g + "[6](" + a.k.src() + "," + a.v.src() + ")"
+		case "DE":
+			return g + "[7](" + a.k.src() + ")"
+		case "IN":
+			if a.a < 0 {
+				return g + "[9]()"
+			}
+			return g + "[8]()"
+		}
+		return g + "[0]()"
 	default:
 		return a.name
 	}
@@ -287,6 +344,8 @@ func (a attempt) kindName() string {
 			return k + "-closure"
 		case 'K':
 			return k + "-sametextclosure"
+		case 'B':
+			return k + "-closurebundle"
 		case 'G':
 			return k + "-closurecall"
 		default:
@@ -308,6 +367,8 @@ func (a attempt) kindName() string {
 		return "parameter"
 	case "CA":
 		return "parameter-alias"
+	case "W":
+		return "escapedclosure-" + strings.ToLower(a.y)
 	}
 	return "read"
 }
@@ -317,7 +378,12 @@ type event struct {
 	a     attempt
 }
 
-func (e event) enc() string { return string(e.scope) + ":" + e.a.enc() }
+func (e event) enc() string {
+	if e.a.kind == "W" {
+		return "W:" + e.a.enc()
+	}
+	return string(e.scope) + ":" + e.a.enc()
+}
 func (e event) src(uniq *int) string {
 	s := e.a.src(uniq)
 	switch e.scope {
@@ -405,6 +471,8 @@ func decExpr(s string) expr {
 			x.id, x.y, x.v = int(i64(f[1])), f[2], decValS(f[3])
 		case 'K':
 			x.id, x.y, x.v = int(i64(f[1])), "", decValS(f[2])
+		case 'B':
+			x.id, x.y, x.v = int(i64(f[1])), f[2], decValS(f[3])
 		case 'T':
 			x.l, x.r, x.v = i64(f[2]), i64(f[3]), decValS(f[4])
 		case 'C':
@@ -415,6 +483,34 @@ func decExpr(s string) expr {
 	return lit(decValS(s))
 }
 func decEvent(s string) event {
+	if s[0] == 'W' {
+		f := strings.Split(s[2:], ",")
+		a := attempt{kind: "W", name: f[0], y: f[1]}
+		switch f[1] {
+		case "AS":
+			a.v, a.flag = decValS(f[2]), f[3] == "1"
+		case "PM":
+			a.v = decValS(f[2])
+		case "FI":
+			a.a, a.b = i64(f[2]), i64(f[3])
+		case "FL":
+			ts := strings.Split(f[2], ".")
+			n, _ := strconv.Atoi(ts[0])
+			ts = ts[1:]
+			for i := 0; i < n; i++ {
+				var e val
+				e, ts = decVal(ts)
+				a.l = append(a.l, e)
+			}
+		case "IX":
+			a.k, a.v = decLeaf(f[2]), decValS(f[3])
+		case "DE":
+			a.k = decLeaf(f[2])
+		case "IN":
+			a.a = i64(f[2])
+		}
+		return event{scope: 'T', a: a}
+	}
 	f := strings.Split(s[2:], ",")
 	a := attempt{kind: f[0], name: f[1]}
 	switch f[0] {
@@ -568,6 +664,7 @@ func c19Run(c *Ctx, noReg bool, names []string, evs []event, line string) runRes
 	firstIns := map[string]string{} // its Inspect text
 	firstTy := map[string]string{}  // its value type, for the signature
 	var res runResult
+	captured := map[string]string{} // bundle name -> exact value of the captured parameter
 	cloFirst := map[string]string{} // closure name -> first result of calling it
 	closOf := map[string]string{}   // closure name -> the constant-named function-scope binding it closes over
 	{
@@ -594,6 +691,32 @@ func c19Run(c *Ctx, noReg bool, names []string, evs []event, line string) runRes
 		}
 		out, panicked, errs := se.exec(src)
 		out = fnText.ReplaceAllString(out, "<fn>") // function texts (they carry the unique statements) print as <fn>
+		if ev.a.kind == "AS" && ev.a.ex.kind == 'B' && strings.HasPrefix(out, "ok=") {
+			out = "ok=<fn>" // the bundle prints as an array of function texts
+		}
+		// the constant-named parameter captured by a bundle of escaped closures: whatever its writers do, the reader
+		// keeps returning what the maker was called with
+		if ev.a.kind == "AS" || ev.a.kind == "DL" {
+			delete(captured, ev.a.name)
+		}
+		if ev.a.kind == "AS" && ev.a.ex.kind == 'B' && strings.HasPrefix(out, "ok=") && isConst(ev.a.ex.y) {
+			if o, err := eval.EvalString(se.s, ev.a.name+"[0]()", false); err == nil {
+				captured[ev.a.name] = exact(o)
+			}
+		}
+		if ev.a.kind == "W" {
+			if f, ok := captured[ev.a.name]; ok {
+				now := "?"
+				if o, err := eval.EvalString(se.s, ev.a.name+"[0]()", false); err == nil {
+					now = exact(o)
+				}
+				if now != f {
+					c.Fail("const-captured-changed-"+ev.a.kindName(), line,
+						fmt.Sprintf("%s step %d %q: the parameter captured by %s was %s, its reader now returns %s", mode, idx, src, ev.a.name, f, now))
+					captured[ev.a.name] = now
+				}
+			}
+		}
 		if ev.a.kind == "AS" || ev.a.kind == "DL" {
 			delete(cloFirst, ev.a.name)
 		}
@@ -706,7 +829,7 @@ func c19Seq(c *Ctx, names []string, evs []event) {
 	evs = append([]event(nil), evs...)
 	nid := 0
 	for i := range evs { // every closure-making occurrence gets its own id (its defining environment)
-		if evs[i].a.kind == "AS" && (evs[i].a.ex.kind == 'M' || evs[i].a.ex.kind == 'K') && evs[i].a.ex.id == 0 {
+		if evs[i].a.kind == "AS" && (evs[i].a.ex.kind == 'M' || evs[i].a.ex.kind == 'K' || evs[i].a.ex.kind == 'B') && evs[i].a.ex.id == 0 {
 			nid++
 			evs[i].a.ex.id = nid
 		} else if evs[i].a.ex.id > nid {
@@ -941,6 +1064,24 @@ func corpus() ([][]string, [][]event) {
 			// a non constant name: the closure shares the top-level variable
 			add([]string{"K", "x", "v"}, T(as("v", vi(1))), T(asx("g1", expr{kind: 'M', y: "v", v: v})), call("x"), T(as("v", vi(7))), call("x"), T(rd("v")))
 		}
+	}
+	// closures that ESCAPED their maker and write to its constant-named parameter before any read: =, :=, a parameter
+	// and a loop variable of the same name, index assignment, del, ++; then the reader over the same binding
+	wr := func(g, what string, a attempt) event { a.kind, a.name, a.y = "W", g, what; return event{'T', a} }
+	for _, v := range []val{vi(1), parr(3, 1), parr(10, 1), pmap(5, 1), vf(10), vs("k")} {
+		twv, _ := twin(&Ctx{R: NewRng(7)}, v)
+		add([]string{"x"}, T(asx("w1", expr{kind: 'B', y: "LIM", v: v})),
+			wr("w1", "AS", attempt{v: vi(99)}), wr("w1", "RD", attempt{}), wr("w1", "AS", attempt{v: vi(98), flag: true}), wr("w1", "AS", attempt{v: v}), wr("w1", "AS", attempt{v: twv}),
+			wr("w1", "PM", attempt{v: vi(20)}), wr("w1", "PM", attempt{v: v}), wr("w1", "FI", attempt{a: 0, b: 3}), wr("w1", "FL", attempt{l: []val{vi(5), twv}}),
+			wr("w1", "IX", attempt{k: vi(0), v: vi(7)}), wr("w1", "IX", attempt{k: vi(1), v: vi(1)}), wr("w1", "DE", attempt{k: vi(1)}), wr("w1", "IN", attempt{a: 1}), wr("w1", "IN", attempt{a: -1}),
+			wr("w1", "RD", attempt{}))
+		// a write FIRST (no read has planted a reference), one bundle per kind of write
+		for _, first := range []event{wr("w2", "AS", attempt{v: vi(99)}), wr("w2", "AS", attempt{v: vi(99), flag: true}), wr("w2", "PM", attempt{v: vi(20)}),
+			wr("w2", "FI", attempt{a: 0, b: 3}), wr("w2", "FL", attempt{l: []val{vi(5)}}), wr("w2", "IX", attempt{k: vi(0), v: vi(7)}), wr("w2", "IN", attempt{a: 1})} {
+			add([]string{"x"}, T(asx("w2", expr{kind: 'B', y: "K_9", v: v})), first, wr("w2", "RD", attempt{}))
+		}
+		// the same name bound at top level as well (the closures see their maker's binding; outside the model: direct oracle only)
+		add([]string{"LIM"}, T(asx("w1", expr{kind: 'B', y: "LIM", v: v})), T(as("LIM", vi(5))), wr("w1", "AS", attempt{v: vi(99)}), wr("w1", "RD", attempt{}), T(rd("LIM")))
 	}
 	// a constant holding a function: another closure with the SAME TEXT over a different environment must be refused
 	// (mk=func(mkn){func(){mkn}}; F=mk(1); F=mk(2); F()), the very same function value accepted
@@ -1238,7 +1379,43 @@ func c19Random(c *Ctx, nEvents int) {
 			yv := cur[y]
 			ln := int64(len(yv.els))
 			var x expr
-			switch c.R.Intn(12) {
+			switch c.R.Intn(13) {
+			case 12: // a bundle of closures over a constant-named parameter of their maker, then calls of its writers
+				sc = 'T'
+				g := []string{"w1", "w2"}[c.R.Intn(2)]
+				pn := []string{"LIM", "K_9", "MAXV", "P0"}[c.R.Intn(4)]
+				bv := randVal(c, 1)
+				evs = append(evs, T(asx(g, expr{kind: 'B', y: pn, v: bv})))
+				for j := 1 + c.R.Intn(4); j > 0; j-- {
+					w := attempt{kind: "W", name: g}
+					switch c.R.Intn(9) {
+					case 0:
+						w.y = "RD"
+					case 1, 2:
+						w.y, w.v, w.flag = "AS", randVal(c, 1), c.R.Bool()
+						if c.R.Pct(30) {
+							w.v = bv
+						}
+					case 3:
+						w.y, w.v = "PM", randVal(c, 1)
+						if c.R.Pct(30) {
+							w.v = bv
+						}
+					case 4:
+						w.y, w.a = "FI", int64(c.R.Intn(3))
+						w.b = w.a + int64(c.R.Intn(3))
+					case 5:
+						w.y, w.l = "FL", []val{randVal(c, 1)}
+					case 6:
+						w.y, w.k, w.v = "IX", randIndex(c, bv), randLeaf(c)
+					case 7:
+						w.y, w.k = "DE", randIndex(c, bv)
+					default:
+						w.y, w.a = "IN", int64(1-2*c.R.Intn(2))
+					}
+					evs = append(evs, event{'T', w})
+				}
+				continue
 			case 11: // same-text closures again (so that re-binding a function-valued constant is frequent)
 				sc = 'T'
 				x = expr{kind: 'K', v: randLeaf(c)}
@@ -1422,6 +1599,43 @@ func randIndex(c *Ctx, v val) val {
 	return vi(int64(c.R.Intn(16)))
 }
 
+// programs outside the attempt language (named functions, self, catch): after running the lines, the expression must
+// have the given exact rendering - in both register modes
+type rawProg struct {
+	sig   string
+	lines []string
+	expr  string
+	want  string
+}
+
+var rawCorpus = []rawProg{
+	// inside func FOO, Get(FOO) is the running function: the constant check compared the function with itself
+	{"const-changed-ownname-function", []string{"func FOO(){FOO=self}", "H=FOO", "del(FOO)", "FOO=1", "H()"}, "FOO", "1"},
+	{"const-changed-ownname-function", []string{"func BAR(){BAR=2}", "H=BAR", "del(BAR)", "BAR=1", "H()"}, "BAR", "1"},
+	{"const-captured-changed-escapedclosure-as", []string{"func mk(K){[()=>K, ()=>{K=99}]}", "p=mk(1)", "r=catch(p[1]())"}, "[r.err, p[0]()]", "[true,1]"},
+	{"const-shadowed-escapedclosure-pm", []string{"func mk2(LIMIT){func(LIMIT){LIMIT}}", "g=mk2(10)", "r=catch(g(20))"}, "r.err", "true"},
+	{"const-captured-changed-escapedclosure-fi", []string{"func mk(K){()=>{for K = 3 {}; K}}", "g=mk(7)"}, "g()", "7"},
+}
+
+func c19Raw(c *Ctx) {
+	for _, noReg := range []bool{false, true} {
+		for _, rp := range rawCorpus {
+			se := newSession(noReg)
+			for _, l := range rp.lines {
+				se.exec(l)
+				c.Eval()
+			}
+			got := "-"
+			if o, err := eval.EvalString(se.s, rp.expr, false); err == nil {
+				got = exact(o)
+			}
+			if got != rp.want {
+				c.Fail(rp.sig, "RAW "+strings.Join(rp.lines, "; ")+"; "+rp.expr, fmt.Sprintf("noreg=%v: %s is %s, expected %s", noReg, rp.expr, got, rp.want))
+			}
+		}
+	}
+}
+
 func runC19(c *Ctx) {
 	log.SetLogLevelQuiet(log.Critical)
 	_ = extensions.Init(nil) // defines the identifier nil (and PI, E: not used as names here)
@@ -1444,6 +1658,7 @@ func runC19(c *Ctx) {
 		}
 		return
 	}
+	c19Raw(c)
 	ns, seqs := corpus()
 	for i := range seqs {
 		c19Seq(c, ns[i], seqs[i])
